@@ -547,7 +547,7 @@ func TestVerifC39(t *testing.T) { //nolint:cyclop,gocognit,maintidx
 	se.SetICEMulticastDNSMode(ice.MulticastDNSModeDisabled)
 	api := NewAPI(WithSettingEngine(se))
 
-	n := kit.N(3000, 60000)
+	n := kit.N(12000, 150000)
 	run.Parallel(n, 8, func(i int) {
 		r := run.CaseRand(i)
 		init := c39Initial(r, pool)
